@@ -157,8 +157,10 @@ def run_impl(case):
             return []
     filled = []
     for rid in ids:
-        s = fm.spec[rid]
-        filled.append([s["rhbits"], s["fhbits"], s["cbits"], s["pbits"], s["format"] == "U", s["layout"] == "interleaved"])
+        # through the public getters (the footprint and traffic models read the spec this way)
+        filled.append([fm.getRHBits(rid), fm.getFHBits(rid), fm.getCBits(rid), fm.getPBits(rid),
+                       fm.getFormat(rid) == "U", fm.getLayout(rid) == "interleaved",
+                       fm.getElem(rid, "coord"), fm.getElem(rid, "payload"), fm.getElem(rid, "elem")])
     rootspec = [fm.spec["root"]["hbits"], fm.spec["root"]["pbits"]]
     ranks = [fm.getRank(rid) for rid in ids]
     fibers = []
